@@ -192,6 +192,9 @@ EXPORT errno_t _wcstombs_s_chk(size_t *restrict retvalp, char *restrict dest,
     }
 
     /* l is the strlen, excluding NULL */
+    /* the C library may store up to len bytes: never more than dmax */
+    if (dest && len > dmax)
+        len = dmax;
     l = *retvalp = wcstombs(dest, src, len);
 
     if (likely(l > 0 && (rsize_t)l < dmax)) {
